@@ -6,10 +6,11 @@ Techniques (DESIGN 2b), per rule:
 * T1 structural + T2: R-C06-2 (CFG reachability in run_sim; stores of update_network_previous_values from symbolic events; the time
   advance is recognised only as `self._wn.sim_time += ..`, source_head_param by a substring of its unparsed source).
 * T3 finite evaluation, exhaustive over a finite domain: R-C06-3b (3 x 3 status table by sa/peval, via c02.status_table).
-* PRESENCE / TEXT MATCHES ONLY (T1 in name; they decide that a construct is present, not what it does): R-C06-1b (an assignment
-  to self._head exists in two setters, value not examined), R-C06-1c (locals named vcurve/arr/curve/points assigned from a text
-  containing '.points'), R-C06-3c (substring 'isinstance(other_node, Tank)'), R-C06-3d (an attribute flow/_flow is read somewhere in
-  _CloseHeadPumpCondition.evaluate), R-C06-5 (some *interp call has a left=/right= keyword, or there is no such call).
+* T2 as well: R-C06-1b (the elevation / init_level setters executed symbolically: last value stored into _head = elevation + init_level),
+  R-C06-1c (the axes of every interpolation, with locals resolved by the symbolic execution, are computed from <tank>.vol_curve.points).
+* T3 bounded: R-C06-3d (_CloseHeadPumpCondition built on mocks and evaluated on three reverse-flow fixtures below the shut-off head).
+* PRESENCE / TEXT MATCHES ONLY (both are recorded, unrepaired defects; the match only recognises that a repair has appeared):
+  R-C06-3c (substring 'isinstance(other_node, Tank)'), R-C06-5 (some *interp call has a left=/right= keyword, or there is no such call).
 """
 import ast
 import os
@@ -35,13 +36,15 @@ EXPLANATION = (
     "true since the last value (units and sign are not analysed). T1+T2: R-C06-2 CFG reachability in run_sim: previous values (time, tank heads) are "
     "stored once per accepted step after save_results and before the advance (seen only as `sim_time +=`), heads recomputed on non-first, "
     "non-resolve iterations; source_head_param by text. T3, exhaustive over the 3x3 (user, internal) status table evaluated by sa/peval: R-C06-3b "
-    "Pipe/Pump/Valve.status is Closed when the internal status is. Presence / text matches only, nothing evaluated: R-C06-1b the elevation and "
-    "init_level setters contain an assignment to self._head; R-C06-1c curve locals are assigned from text containing '.points'; R-C06-3c "
-    "_get_all_tank_controls contains 'isinstance(other_node, Tank)'; R-C06-3d _CloseHeadPumpCondition.evaluate reads an attribute flow/_flow; "
+    "Pipe/Pump/Valve.status is Closed when the internal status is. T2: R-C06-1b the elevation and init_level setters, executed "
+    "symbolically, leave head = elevation + init_level; R-C06-1c every interpolation axis (locals resolved) is computed from <tank>.vol_curve.points at the "
+    "time of use. T3 bounded: R-C06-3d _CloseHeadPumpCondition evaluated on mock pumps with reverse flow below the shut-off head is true. Presence / text "
+    "matches only (two recorded, unrepaired defects): R-C06-3c _get_all_tank_controls contains 'isinstance(other_node, Tank)'; "
     "R-C06-5 an interp call carries left=/right= (or none exists). Decides the integration formula and the controls' construction, not trajectories.")
 RULE_TEXT = "one instance = one extracted formula, one bookkeeping path rule, one row of the limit-control case table, or one presence check"
 ASSUMPTIONS = ["the ~2 s overshoot bound and limits on every trajectory depend on the timing of the re-solve loop (not decided)",
-               "R-C06-1b, -1c, -3c, -3d and -5 are presence / text matches on the parsed source: they do not examine the value assigned or how the matched construct is used",
+               "R-C06-3c and -5 (known findings) are presence / text matches on the parsed source: they only recognise that a repair has appeared",
+               "R-C06-3d is decided on three (heads, flow) fixtures",
                "R-C06-2 skips its 'stored before the advance' obligation silently when the advance is not written `self._wn.sim_time += ..`"]
 
 
@@ -704,7 +707,8 @@ def run(repo, chk):
 
     # ================================================================ rules added after the defect hunt (hunted/C06)
     # ---------------------------------------------------------------- R-C06-1b "starting from init_level": both quantities the starting head is made of refresh it
-    # (presence match: an Assign whose target unparses to self._head must exist in each setter; the assigned value is not examined)
+    # (T2: each setter is executed symbolically; on every returning path the LAST value stored into self._head must be elevation + init_level with the
+    #  quantity being set taken at its NEW value -- read through the property, the backing field or the setter's parameter alike)
     tk = repo.cls(ELEM, "Tank")
     setters = {n.name: n for n in tk.body if isinstance(n, ast.FunctionDef) and any(isinstance(d, ast.Attribute) and d.attr == "setter" for d in n.decorator_list)}
     ini_ = [n for n in tk.body if isinstance(n, ast.FunctionDef) and n.name == "__init__"][0]
@@ -712,40 +716,84 @@ def run(repo, chk):
     if not head0:
         raise ExtractError("Tank.__init__: initial head not found")
     reads = {x.attr.lstrip("_") for x in ast.walk(head0[0].value) if isinstance(x, ast.Attribute)}
-    for q in sorted(reads & {"elevation", "init_level"}):
+    parts = sorted(reads & {"elevation", "init_level"})
+    if parts != ["elevation", "init_level"]:
+        raise ExtractError("Tank.__init__: the starting head is no longer made of elevation and init_level (%s)" % sorted(reads))
+    for q in parts:
         st = setters.get(q)
-        ok_ = st is not None and any(isinstance(a, ast.Assign) and unparse(a.targets[0]) == "self._head" for a in walk(st))
-        chk.expect(ok_, "R-C06-1b", "Tank.%s setter refreshes the starting head (head = elevation + init_level)" % q, loc(ELEM, st) if st is not None else ELEM,
-                   "the tank's head at the start of a simulation is elevation + init_level; a setter that leaves _head alone makes the run start from a different level than init_level",
-                   expected="self._head = elevation + init_level", found="no assignment of _head")
+        if st is None:
+            chk.bad("R-C06-1b", "Tank.%s setter refreshes the starting head (head = elevation + init_level)" % q, ELEM, found="no setter")
+            continue
+        chk.fn(st)
+        exs = SymExec()
+        okq, found_q, npaths = True, [], 0
+        for o in exs.run(st):
+            if o.raised:
+                continue
+            npaths += 1
+            hs = [e for e in o.events if e[0] == "store" and e[1] == "self._head"]
+            newq = [e[2] for e in o.events if e[0] == "store" and e[1] == "self._" + q]
+            found_q.append([str(e[2]) for e in hs] or "no assignment of _head")
+            if not hs or not newq:
+                okq = False
+                continue
+            try:
+                val = pub(exs, hs[-1][2])
+                newv = exs.S(newq[-1])
+            except ExtractError:
+                okq = False
+                continue
+            # the quantity being set counts at its new value: replace its symbol (property / backing field spelling) by the value stored
+            val = val.subs(exs.sym("self." + q), newv)
+            other = [x for x in parts if x != q][0]
+            okq = okq and is_zero(val - (newv + exs.sym("self." + other)))
+        chk.expect(okq and npaths >= 1, "R-C06-1b", "Tank.%s setter refreshes the starting head (head = elevation + init_level)" % q, loc(ELEM, st),
+                   "the tank's head at the start of a simulation is elevation + init_level; a setter that leaves _head alone (or stores something else) makes the run start from a different level than init_level",
+                   expected="self._head = elevation + init_level with the new %s" % q, found=found_q)
     chk.floor("R-C06-1b", 2)
 
     # ---------------------------------------------------------------- R-C06-1c the volume curve used is the tank's CURRENT curve
-    # (AST + substring match: only locals named vcurve / arr / curve / points are inspected, for the text '.points'; other spellings pass unchecked)
-    # Curve.points has a setter: the integration step and get_volume must read the points at the time of use (or through a memo keyed by them)
-    def curve_source_ok(fn, owner_cls):
-        bad = []
-        for a in walk(fn):
-            if isinstance(a, ast.Assign) and isinstance(a.targets[0], ast.Name) and a.targets[0].id in ("vcurve", "arr", "curve", "points"):
-                v = a.value
-                if ".points" in unparse(v):
+    # (T2: the axes handed to every interpolation are taken from the symbolic execution, i.e. with all locals resolved to what they were computed from; each axis
+    #  must be computed, inside the function, from `<tank>.vol_curve.points` (Curve.points has a setter: the points of an assigned curve can be replaced).  An axis that
+    #  comes from a method of Tank is accepted when that method reads the points itself or memoises under a guard that compares them; anything else -- an attribute
+    #  cached on the tank, a module-level table -- is a stale-curve hazard.)
+    def interp_axes(fn, stores):
+        exa = AtomExec(call_hook=interp_hook)
+        axes = set()
+        for o in exa.run(fn):
+            if o.raised:
+                continue
+            vals = [e[2] for e in o.events if e[0] == "store" and e[1] in stores] + ([o.ret] if o.ret is not None else [])
+            for v in vals:
+                try:
+                    v = exa.S(v)
+                except ExtractError:
                     continue
-                if isinstance(v, ast.Call) and isinstance(v.func, ast.Attribute):
-                    m = [n for n in owner_cls.body if isinstance(n, ast.FunctionDef) and n.name == v.func.attr]
-                    if m:
-                        guards = [n for n in walk(m[0]) if isinstance(n, ast.If) and "is None" in unparse(n.test)]
-                        keyed = any(".points" in unparse(gd.test) for gd in [n for n in walk(m[0]) if isinstance(n, ast.If)])
-                        if guards and not keyed:
-                            bad.append("%s() memoises the curve array under `%s` only" % (v.func.attr, unparse(guards[0].test)))
-                        continue
-                bad.append(norm(a))
-        return bad
-    for fn_, label in ((repo.func(HYD, "update_tank_heads"), "update_tank_heads"), (repo.func(ELEM, "Tank.get_volume"), "Tank.get_volume")):
-        uses_curve = "vol_curve" in unparse(fn_) or "_vol_curve" in unparse(fn_)
-        bad_ = curve_source_ok(fn_, tk) if uses_curve else ["no volume-curve branch"]
-        chk.expect(uses_curve and not bad_, "R-C06-1c", "%s reads the points of the tank's volume curve at the time of use" % label, loc(fn_),
+                for at in (v.atoms(sp.Function) if isinstance(v, sp.Basic) else ()):
+                    if at.func.__name__ == "interp":
+                        axes.update(str(x) for x in at.args[1:])
+        return sorted(axes)
+
+    def axis_verdict(txt, owner_cls):
+        if re.search(r"vol_curve(_name\])?\.points", txt):
+            return None
+        m = re.search(r"(?:self|tank)\.(\w+)\(", txt)
+        if m:
+            meth = [n for n in owner_cls.body if isinstance(n, ast.FunctionDef) and n.name == m.group(1)]
+            if meth:
+                body_txt = unparse(meth[0])
+                tests = [unparse(n.test) for n in walk(meth[0]) if isinstance(n, ast.If)]
+                if ".points" in body_txt and (not tests or any(".points" in t for t in tests)):
+                    return None
+                return "%s() memoises the curve array without comparing the curve's points (%s)" % (m.group(1), "; ".join(tests)[:120])
+        return "axis `%s` is not computed from the curve's points at the time of use" % txt[:100]
+    for fn_, label, stores_ in ((repo.func(HYD, "update_tank_heads"), "update_tank_heads", ("tank._head",)), (repo.func(ELEM, "Tank.get_volume"), "Tank.get_volume", ())):
+        axes_ = interp_axes(fn_, stores_)
+        bad_ = [b_ for b_ in (axis_verdict(t, tk) for t in axes_) if b_] if axes_ else ["no interpolation on the volume curve found"]
+        chk.expect(not bad_, "R-C06-1c", "%s reads the points of the tank's volume curve at the time of use" % label, loc(fn_),
                    "the points of an assigned curve can be replaced in place (curve.points = [...]); an array cached when the curve was first used makes later runs integrate through the old curve",
-                   expected="np.array(tank.vol_curve.points) or a memo keyed by the points", found=bad_)
+                   expected="every interpolation axis computed from <tank>.vol_curve.points (or a memo keyed by the points)", found=bad_ or axes_)
+    chk.floor("R-C06-1c", 2)
 
     # ---------------------------------------------------------------- R-C06-3b the closure the tank controls command is effective for every link kind they act on
     # the closing controls write _internal_status = Closed; a link's effective status must then be Closed whatever the user status is
@@ -768,16 +816,19 @@ def run(repo, chk):
                found="other_node is used only through its head")
 
     # ---------------------------------------------------------------- R-C06-3d pumps are skipped by the tank controls because they cannot run backwards -- they must not
-    # (presence match: an attribute named flow / _flow is read somewhere in evaluate(); the condition is not evaluated -- the peval names imported below are unused)
-    from ..peval import Evaluator as _Ev, Obj as _Obj, Unknown as _Unk, Raised as _Rs
+    # (T3, bounded: the shut-off condition object is built by its own constructor on mock nodes / pump (c02.condition_value) and evaluated by the in-house interpreter
+    #  for a pump that carries reverse flow although the head difference is BELOW its shut-off head: a tank draining backwards through its fill pump)
+    from .c02 import condition_value, QTOL_SI
     for cname in ("_CloseHeadPumpCondition",):      # power pumps: the constant-power relation admits no reverse-flow solution (checked by experiment), not claimed
         ev_fn = repo.func(CTRL, cname + ".evaluate")
         chk.fn(ev_fn)
-        reads_flow = any(isinstance(x, ast.Attribute) and x.attr in ("flow", "_flow") for x in walk(ev_fn))
-        chk.expect(reads_flow, "R-C06-3d", "%s closes a pump that carries reverse flow" % cname, loc(ev_fn),
-                   "pumps that end (start) at a tank get no min-level (max-level) closing control 'because pumps have check valves', but the pump's own closing condition only "
-                   "compares the head difference with the shut-off head; for q < 0 the pump curve is flat at the shut-off head, the test never fires and the tank drains backwards "
-                   "through the open pump below its minimum level", expected="also true when pump.flow < -Qtol (as _CloseCVCondition)", found="no read of the pump's flow")
+        for heads, flow in (((10.0, 30.0), -1e-3), ((25.0, 20.0), -5e-2), ((0.0, 49.0), -10 * QTOL_SI)):
+            got, err = condition_value(repo, cname, heads, flow, internal="Open", shutoff=50.0)
+            chk.expect(err is None and got is True, "R-C06-3d", "%s closes a pump that carries reverse flow [heads %s -> %s, shut-off 50, flow %g]" % (cname, heads[0], heads[1], flow), loc(ev_fn),
+                       "pumps that end (start) at a tank get no min-level (max-level) closing control 'because pumps have check valves', but a closing condition that only "
+                       "compares the head difference with the shut-off head never fires for q < 0 (the pump curve is flat at the shut-off head there) and the tank drains backwards "
+                       "through the open pump below its minimum level", expected="True (as _CloseCVCondition)", found=err or repr(got))
+    chk.floor("R-C06-3d", 3)
 
     # ---------------------------------------------------------------- R-C06-5 volume curves are not silently clamped at their ends
     # (presence match: passes if any call ending in 'interp' carries a left= / right= keyword, or if there is no such call)
@@ -791,6 +842,13 @@ def run(repo, chk):
 
 WITNESSES = [
     dict(name="elevation-setter-leaves-head", file=ELEM, old="        self._head = self._elevation + self._init_level  # like the init_level setter: the tank starts at init_level\n", new="", rule="R-C06-1b"),
+    dict(name="elevation-setter-stores-elevation-only", file=ELEM, old="        self._head = self._elevation + self._init_level  # like the init_level setter: the tank starts at init_level\n", new="        self._head = self._elevation\n", rule="R-C06-1b"),
+    dict(name="quiet-elevation-setter-uses-value-and-property", file=ELEM, silent=True, old="        self._head = self._elevation + self._init_level  # like the init_level setter: the tank starts at init_level\n", new="        self._head = self.init_level + value\n"),
+    dict(name="head-pump-reverse-flow-needs-adverse-head", file=CTRL, old="        if self._pump.flow is not None and self._pump.flow < -2.83168e-6:\n            return True\n", new="        if self._pump.flow is not None and self._pump.flow < -2.83168e-6 and dh > 0:\n            return True\n", rule="R-C06-3d"),
+    dict(name="integration-through-cached-curve-array", file=HYD, old="            vcurve = np.array(tank.vol_curve.points)\n", new="            vcurve = tank._vol_curve_cache\n", rule="R-C06-1c"),
+    dict(name="get-volume-through-cached-curve-array", file=ELEM, old="            arr = np.array(self.vol_curve.points)\n", new="            arr = self._vol_curve_cache\n", rule="R-C06-1c"),
+    dict(name="quiet-curve-array-other-local-names", file=HYD, silent=True, old="            vcurve = np.array(tank.vol_curve.points)\n            level_x = vcurve[:,0]\n            volume_y = vcurve[:,1]\n",
+         new="            table = np.array(tank.vol_curve.points)\n            level_x, volume_y = table[:,0], table[:,1]\n"),
     dict(name="pipe-ignores-internal-closure", file=ELEM, old="        if self._internal_status == LinkStatus.Closed:\n            return LinkStatus.Closed\n        else:\n            return self._user_status\n\n    @property\n    def friction_factor",
          new="        return self._user_status\n\n    @property\n    def friction_factor", rule="R-C06-3b"),
     dict(name="area-2", file=HYD, old="            delta_h = 4.0 * dV / (math.pi * tank.diameter ** 2)", new="            delta_h = 2.0 * dV / (math.pi * tank.diameter ** 2)", rule="R-C06-1"),
